@@ -33,6 +33,47 @@ pub fn generate(prop: &str, tier: &str, r: &mut Rng, out: &mut Vec<String>) -> G
                 exhaustive: true,
             }
         }
+        "C02" => {
+            use crate::malformed::*;
+            short_strings(out, if thorough { &[0, 1, 2, 3, 5, 0x0f, 0x10, 0x13, 0x21, 0x22, 0x34, 0x35, 0x37, 0x4a, 0x4b, 0x80, 0xff] } else { &[0, 3, 0x21, 0x34, 0xff] });
+            tag_len_grid(out);
+            lang_pairs(out);
+            token_sequences(out, if thorough { 5 } else { 4 });
+            mutations(out, r, if thorough { 1_000_000 } else { 10_000 });
+            for (kind, unit) in FAMILIES {
+                let mut sizes: Vec<usize> = vec![1, 2, 3, 100, 1000, 4096 / unit.max(&1)];
+                let mut bytes = 16 * 1024;
+                while bytes <= 1024 * 1024 {
+                    sizes.push(bytes / unit.max(&1));
+                    bytes *= 4;
+                }
+                sizes.push(1024 * 1024 / unit.max(&1));
+                sizes.dedup();
+                for n in sizes {
+                    if n >= 1 {
+                        out.push(format!("bomb {} {}", kind, n));
+                    }
+                }
+            }
+            GenInfo {
+                rule: "enumerations: every string of <= 2 bytes after a valid header and 3-byte strings over a tier-dependent third-byte set; every (tag 0x00-0xff) x (length 0-16, 0xffff) x fill through the value decoder and as a one-attribute message (exact and off-by-one declared length); every inner length pair of the with-language syntaxes x total length 0-16; all sequences of <= k tokens over a 16-token alphabet (k=4 quick, 5 thorough); seeded grammar-aware mutations of well-formed messages; structural bombs (10 families, sizes up to 1 MiB) in a child process. Non-trivial = distinct case lines".into(),
+                exhaustive: false,
+            }
+        }
+        "C04" => {
+            let n = if thorough { 200_000 } else { 3_000 };
+            let lim = crate::wiregen::WLimits { max_depth: if thorough { 6 } else { 4 }, malformed_per_mille: 8, boundary: true };
+            for _ in 0..n {
+                let mut rr = r.fork();
+                let w = crate::wiregen::gen_wmsg(&mut rr, &lim);
+                let p = gen_payload(&mut rr);
+                out.push(format!("wire {} {}", crate::wiregen::show_wmsg(&w), hex(&p)));
+            }
+            GenInfo {
+                rule: "seeded random wire trees from the RFC 8010 grammar (0-4 groups incl. repeated/empty, 0-4 attributes with 1-4 values, every tag 0x10-0x4a, syntactically valid bodies incl. non-UTF-8 text and rare 255/256/65535-byte bodies, nested collections with multi-valued and duplicate members, duplicate attribute names; ~0.8% of the choices deliberately malformed), serialised by the harness's own serializer; non-trivial = distinct case lines the parser accepts or rejects with a definite outcome".into(),
+                exhaustive: false,
+            }
+        }
         "C01" | "C03" => {
             let n = if thorough { 300_000 } else { 3_000 };
             let lim = Limits { max_depth: if thorough { 6 } else { 4 }, boundary: true };
@@ -40,7 +81,11 @@ pub fn generate(prop: &str, tier: &str, r: &mut Rng, out: &mut Vec<String>) -> G
                 let mut rr = r.fork();
                 let m = gen_msg(&mut rr, &lim);
                 let p = gen_payload(&mut rr);
-                out.push(format!("roundtrip {} {}", show_msg(&m), hex(&p)));
+                if prop == "C03" {
+                    out.push(format!("encoded {}", show_msg(&m)));
+                } else {
+                    out.push(format!("roundtrip {} {}", show_msg(&m), hex(&p)));
+                }
             }
             GenInfo {
                 rule: "seeded random messages of the public value model (1-5 groups starting with the operation group, repeated/empty groups, 0-6 attributes, all 22 value kinds, homogeneous and mixed sets, collections to the tier's depth with multi-valued members, rare 255/256/65535-byte strings) with random payloads; each built with fresh randomly keyed hash maps; non-trivial = distinct effective case lines".into(),
